@@ -463,12 +463,15 @@ namespace occa {
     occa::json memProps = memoryProperties(props);
 
     memory mem(modeDevice->malloc(bytes, src, memProps));
-    mem.setDtype(dtype);
 
+    // Count the allocation before anything can throw:
+    //   freeing [mem] discounts it again
     modeDevice->bytesAllocated += bytes;
     modeDevice->maxBytesAllocated = std::max(
       modeDevice->maxBytesAllocated, modeDevice->bytesAllocated
     );
+
+    mem.setDtype(dtype);
 
     return mem;
   }
